@@ -492,6 +492,10 @@ pub struct RefTri {
     pub nonuniform_w: bool,
     /// signed area of the exact screen polygon (y-down screen coordinates)
     pub sarea: f64,
+    /// screen-space uncertainty (px) of the vertices the clipper generates: an intersection vertex carries an absolute
+    /// rounding error of a few eps32 x the triangle's scale in every clip coordinate, and the perspective division by
+    /// the smallest w of the visible part magnifies it. Zero for triangles that are not clipped. Added to the band.
+    pub extra_band: f64,
 }
 
 #[derive(Copy, Clone, Debug, PartialEq)]
@@ -592,12 +596,22 @@ pub fn ref_tri(sc: &Scene, t: usize) -> RefTri {
     let all = codes[0] & codes[1] & codes[2];
     let ws = clip.map(|p| p[3]);
     let sarea = poly_area(&spoly);
-    RefTri { clip, attr, poly, spoly, outer, inner, stable, hopeless, bbox, clipped: any != 0 && all == 0, nonuniform_w: ws[0] != ws[1] || ws[1] != ws[2], sarea }
+    let clipped = any != 0 && all == 0;
+    let extra_band = if clipped && !poly.is_empty() {
+        let w_min = poly.iter().map(|p| p[3]).fold(f64::MAX, f64::min).max(1e-300);
+        let [sx, sy, ex, ey] = vp_bounds(sc);
+        let half = ((ex as f64 - sx as f64).abs()).max((ey as f64 - sy as f64).abs()) / 2.0;
+        4.0 * f32::EPSILON as f64 * scale / w_min * half
+    } else {
+        0.0
+    };
+    RefTri { clip, attr, poly, spoly, outer, inner, stable, hopeless, bbox, clipped, nonuniform_w: ws[0] != ws[1] || ws[1] != ws[2], sarea, extra_band }
 }
 
 impl RefTri {
     /// Classifies the pixel centre `c` (screen coordinates) with a band of `band` px.
     pub fn classify(&self, sc: &Scene, c: P2, band: f64) -> PixClass {
+        let band = band + self.extra_band;
         if self.hopeless {
             return PixClass::Ambiguous;
         }
